@@ -164,12 +164,17 @@ func (k Keeper) UpdateClient(
 	k.SetClientState(ctx, chainName, newClientState)
 
 	// set new consensus state regardless of if update is valid update
+	// (a TSS client has neither heights nor consensus states)
 	var consensusHeight = header.GetHeight()
-	k.SetClientConsensusState(ctx, chainName, header.GetHeight(), newConsensusState)
+	consensusHeightStr := ""
+	if consensusHeight != nil && newConsensusState != nil {
+		k.SetClientConsensusState(ctx, chainName, consensusHeight, newConsensusState)
+		consensusHeightStr = consensusHeight.String()
+	}
 	k.Logger(ctx).Info(
 		"client state updated",
 		"chain-name", chainName,
-		"height", consensusHeight.String(),
+		"height", consensusHeightStr,
 	)
 
 	defer func() {
@@ -187,7 +192,7 @@ func (k Keeper) UpdateClient(
 	_ = ctx.EventManager().EmitTypedEvent(&types.EventUpdateClient{
 		ChainName:       chainName,
 		ClientType:      clientState.ClientType(),
-		ConsensusHeight: consensusHeight.String(),
+		ConsensusHeight: consensusHeightStr,
 		Header:          hex.EncodeToString(types.MustMarshalHeader(k.cdc, header)),
 	})
 
